@@ -187,6 +187,26 @@ def equivalent(mod, c, g, m):
     return g == m
 
 
+def shrink_failure(mod, c, g, m, o, driver_ok):
+    """delta-debugging hook: a property module may offer shrink(case, fails) -> smaller case"""
+    sh = getattr(mod, 'shrink', None)
+    if sh is None:
+        return c, g, m, o
+
+    def fails(c2):
+        got, model, orc = run_cases(mod, [c2], use_driver=False)
+        return orc[0] is not None and not got[0].startswith('!harness')
+    try:
+        signal.signal(signal.SIGALRM, _alarm)
+        c2 = sh(c, fails)
+        got, model, orc = run_cases(mod, [c2], use_driver=driver_ok)
+        if orc[0] is not None:
+            return c2, got[0], model[0], orc[0]
+    except Exception:
+        pass
+    return c, g, m, o
+
+
 def write_replay(pid, kind, payload):
     os.makedirs(os.path.join(VERIF, 'replays'), exist_ok=True)
     blob = json.dumps(payload, sort_keys=True, indent=1)
@@ -367,6 +387,7 @@ def run_check(pid, tier, seed, t0):
     replay = None
     if oracle_fail:
         c, g, m, o = min(oracle_fail, key=lambda t: len(repr(t[0].args)))
+        c, g, m, o = shrink_failure(mod, c, g, m, o, driver_ok)
         replay = write_replay(pid, 'oracle', {
             'property': pid, 'kind': 'oracle', 'what': o, 'case': c.to_json(), 'impl_output': g,
             'model_output': m, 'repro': getattr(mod, 'repro', lambda c: '')(c),
@@ -398,6 +419,7 @@ def run_check(pid, tier, seed, t0):
         what = broken[:] + ['correspondence op `%s`: impl=%s model=%s' % (c.line, g, m) for c, g, m in corr_fail[:5]]
         if found:
             c, g, o = found
+            c, g, _m, o = shrink_failure(mod, c, g, None, o, False)
             replay = write_replay(pid, 'oracle', {
                 'property': pid, 'kind': 'oracle', 'what': o, 'case': c.to_json(), 'impl_output': g,
                 'repro': getattr(mod, 'repro', lambda c: '')(c), 'also_broken': what[:10]})
